@@ -26,6 +26,7 @@ SPEC = {
             "payloads before good ones, and arbitrary bytes; LocalState→MergeRemoteState exchanges; the real cluster.Channel with wrapped sizes 670-701 bytes "
             "around the 700 byte threshold, 0-2 peers, reliable sends held/released, a 204-message flood of the 200-slot oversize queue in 4% of the cases; "
             "mesh: 2-3 real cluster.Peer on 127.0.0.1 with real silence.Silences and nflog.Log, small and oversized updates from every node, a late joiner. "
+            "silmerge (C09's engine, predicate merge_relays_accepted only): after every Silences.Merge of a non-oversized message the number of calls of the broadcast function is at least the number of records that changed the state (new ids and newer versions of known ids alike). "
             "non-trivial = hits a tagged branch",
     "assumptions": [
         "the delegate is driven through fixes/hook-cluster-export.diff (cluster/export_verif.go, build tag verif, add-only): it builds the unexported delegate over a given registry without a memberlist",
